@@ -78,6 +78,15 @@ fn leaf_event(id: u16, seq: &Arc<AtomicU16>, out: &Out) -> Event {
     Event::Tag { tag: id, from: vec![id, seq.fetch_add(1, Ordering::SeqCst)], val: out.digest() }
 }
 
+/// `Command::spawn` on a command that already exists (and may be running or finished)
+pub fn spawn_on(cmd: &mut C, uni: &Arc<UniCtx>, path: Path, task: Vec<Stmt>) {
+    let uni = uni.clone();
+    cmd.spawn(move |ctx| {
+        let sink = uni.sink.clone();
+        task_root(Crux { ctx, uni, enclosing: Arc::new(vec![]) }, sink, path, task)
+    });
+}
+
 pub fn compile(c: &Cmd, uni: &Arc<UniCtx>) -> C {
     compile_in(c, uni, &Arc::new(vec![]))
 }
